@@ -9,6 +9,20 @@ NOTES = {
  'C01-s1': 'MISSED by the first version of C01 (no two consecutive cases shared shape+parameters); caught after the forced-collision run was added',
  'C13-s1': 'MISSED by the first version of C13 (even segment lengths only); caught after odd nxseg (25, 75) was added for the periodogram estimator',
  'C17-s2': 'MISSED by the first version of C17 (record lengths with N mod nb = 1 only); caught after the data factor was also judged on a record with N mod nb = nb-1 (either contiguous partition accepted, each block normalised by its own length)',
+ 'C01-s3': 'MISSED (response level was always O(1)); caught after the level of the initial condition became an axis (1, 3e-8, 2e5)',
+ 'C03-s3': 'MISSED (every call got fresh copies of the records); caught after a second identification on the SAME record objects was judged (function and class route)',
+ 'C06-s3': 'MISSED (first-stage band always smaller than the bell band); caught after an EFDD/FSDD case with DF2 < DF1 was added',
+ 'C07-s3': 'MISSED (scale factors 1e-6..1e6 only); caught after the scale set was extended to 4e-16 and 1e15',
+ 'C09-s3': 'MISSED (criteria lattice did not contain the ends of the stated ranges); caught after mpd_lim = 0, mpc_lim = 1, xi_max = 1e-3 points were added (and the key order of the hc dict rotates)',
+ 'C10-s3': 'MISSED (soft-criteria dict always written in the same key order); caught after the key order rotates over the six permutations',
+ 'C11-s3': 'MISSED (class mpe always called with keywords); caught after the call form rotates (positional for rtol = 0.02)',
+ 'C12-s3': 'MISSED (a fresh algorithm object for every run); caught after the same algorithm object is re-added to a setup with other records of the same shape and run again',
+ 'C13-s3': 'MISSED (overlap fractions 0, 1/4, 1/2, 3/4 only); caught after decimal overlaps (0.3, 0.7, 0.8, 0.9) on nxseg 20 and 100 were added',
+ 'C14-s3': 'MISSED (float64 records only); caught after an int16 kind (thorough: float32, int64) was added',
+ 'C15-s3': 'MISSED by C15 (no preprocessing between add calls) but caught as shipped by C14 (probe algorithms must keep the data of the moment they were added); C15 catches it too after the prep event with data versions was added',
+ 'C16-s3': 'MISSED (dialog only driven with ordmin = 0); caught after a variant with ordmin = 2 was added',
+ 'C19-s3': 'MISSED (fresh tables for every call); caught after the reuse part (the same table objects handed to a second definition; caller tables must come back unchanged) was added',
+ 'C20-s3': 'MISSED (singular values of ordinary size only); caught after lines with a near-null and an exactly null singular value were added',
  'C20-s2': 'MISSED by the quick tier of the first version of C20 (CMIF with a frequency window only in the thorough tier); caught after the window was added to the quick tier',
 }
 def main():
